@@ -36,7 +36,7 @@ def gen_case(rng, cid):
     victim = []
     if kind == "update" and runs:
         d, req, _ = rng.choice(runs)
-        victim = [{"op": "update", "d": d, "req": req, "p": "p%d" % pay, "st": 4}]; pay += 1
+        victim = [{"op": "update", "d": d, "req": req, "p": "p%d" % pay, "st": 4, "big": rng.choice([0, 0, 70000])}]; pay += 1
     elif kind == "rename" and runs:
         d = rng.choice(runs)[0]; d2 = rng.choice([x for x in range(nd) if x != d])
         victim = [{"op": "rename", "d": d, "d2": d2}]
@@ -54,7 +54,8 @@ def gen_case(rng, cid):
         req = "%08x-%04d" % (rng.randrange(1 << 32), nreq); nreq += 1
         victim = [{"op": "open", "k": k, "d": d, "t": t, "req": req}]
         for _ in range(rng.randint(1, 3)):
-            victim.append({"op": "write", "k": k, "req": req, "p": "p%d" % pay, "st": rng.choice([1, 1, 4])}); pay += 1
+            victim.append({"op": "write", "k": k, "req": req, "p": "p%d" % pay, "st": rng.choice([1, 1, 4]),
+                           "big": rng.choice([0] * 6 + [5000, 70000])}); pay += 1
         victim.append({"op": "close", "k": k})
         runs.append((d, req, t))
     return {"id": "k%d" % cid, "dags": dags, "ops": ops, "victim": victim, "kind": kind, "today": False,
@@ -271,30 +272,39 @@ def one_case(binp, c, work, tier):
         final_sizes = {f["rel"]: f["size"] for f in q["files"]}
         obs.append({"point": "end", "acks": len(c["victim"]), "rc": p.returncode, "canon": canon_observed(R.root, c, q["files"]),
                     "verdicts": judge(c, len(c["victim"]), q), "torn": 0})
-        # torn writes: the state killed before the NEXT data-dir call has the line; cut it at byte offsets
+        # torn writes: C0 = file content when killed before the write, C1 = when killed before the NEXT data-dir call
+        # (write done). The kernel transfers the bytes in order from the write offset, so a write torn after b bytes is
+        # C0 + data[:b] for an appending write and C1[:b] + C0[b:] for a write that overwrites from the start.
+        def content(rel):
+            fp = os.path.join(R.root, "data", rel)
+            return open(fp, "rb").read() if os.path.exists(fp) else None
         for i, (nm, k, wfile, acks, rc, q0, sizes) in enumerate(seq):
             if nm != "write" or not wfile:
                 continue
             rel = os.path.relpath(wfile, os.path.join(R.root, "data"))
-            before = sizes.get(rel, 0)
+            R.kill_at(nm, k); c0 = content(rel)
             nxt = seq[i + 1] if i + 1 < len(seq) else None
-            after = (nxt[6] if nxt else final_sizes).get(rel)
-            if after is None or after <= before + 1:
+            if nxt:
+                R.kill_at(nxt[0], nxt[1])
+            else:
+                R.restore(); subprocess.run([binp, "exec", R.root, R.victf], env=R.env, stdout=subprocess.PIPE, stderr=subprocess.PIPE, timeout=60)
+            c1 = content(rel)
+            if c0 is None or c1 is None or c0 == c1:
                 continue
-            cuts = sorted({before + 1, before + (after - before) // 2, after - 1})
-            for cut in (cuts if tier == "thorough" else cuts[1:2] + cuts[-1:]):
-                if nxt:
-                    R.kill_at(nxt[0], nxt[1])
-                else:
-                    R.restore(); subprocess.run([binp, "exec", R.root, R.victf], env=R.env, stdout=subprocess.PIPE, stderr=subprocess.PIPE, timeout=60)
+            appending = c1.startswith(c0)
+            nwritten = len(c1) - len(c0) if appending else len(c1)   # overwrite: at least up to the end of the new content
+            if nwritten < 2:
+                continue
+            cuts = sorted({1, nwritten // 2, nwritten - 1})
+            for b in (cuts if tier == "thorough" else cuts[1:]):
+                R.kill_at(nm, k)
                 fp = os.path.join(R.root, "data", rel)
-                if not os.path.exists(fp):
-                    continue
-                os.truncate(fp, cut)
+                torn = c0 + c1[len(c0):len(c0) + b] if appending else c1[:b] + c0[b:]
+                open(fp, "wb").write(torn)
                 q = R.query()
-                obs.append({"point": "%s#%d+torn@%d/%d" % (nm, k, cut - before, after - before), "acks": acks, "rc": rc,
+                obs.append({"point": "%s#%d+torn@%d/%d%s" % (nm, k, b, nwritten, "" if appending else "(overwriting)"), "acks": acks, "rc": rc,
                             "canon": canon_observed(R.root, c, q["files"]), "verdicts": judge(c, acks, q), "torn": 1,
-                            "cut_at_newline": cut == after - 1})
+                            "cut_at_newline": b == nwritten - 1})
     finally:
         shutil.rmtree(os.path.join(work, c["id"]), ignore_errors=True)
     return obs
